@@ -296,7 +296,12 @@ class Check:
         for k in self.known:
             if k["id"] not in seen_known:
                 self.notes.append("known finding %s was not reproduced on this run" % k["id"])
-        for c in new_fail[:5]:
+        # one replay per distinct site first, then more of the same, at most eight
+        firsts, rest_, seen_sites = [], [], set()
+        for c in new_fail:
+            (rest_ if c.get("site") in seen_sites else firsts).append(c)
+            seen_sites.add(c.get("site"))
+        for c in (firsts + rest_)[:8]:
             body = {"property": self.pid, "kind": "failing-input", "seed": self.seed, "tier": self.tier}
             body.update(c)
             body["broken_obligations"] = [o["name"] for o in self.obligations if not o["ok"]]
@@ -324,6 +329,10 @@ class Check:
         cov["axioms"] = self.axioms
         cov["known_findings_seen"] = sorted(seen_known)
         cov["failing_inputs"] = len(self.failing)
+        sites = {}
+        for c in self.failing:
+            sites[str(c.get("site"))] = sites.get(str(c.get("site")), 0) + 1
+        cov["failing_sites"] = sites
         cov["model_drift"] = len(self.drift)
         if self.drift:
             cov["model_drift_samples"] = self.drift[:5]
